@@ -13,7 +13,7 @@ from simkit import refdensity as R
 from simkit.core import EventLog, SutError, Violations, canon, sha
 from simkit.props import C01, C02
 
-RUN_CAP_S = 120
+RUN_CAP_S = 900
 
 
 def gen_plan(rng, tier: str, idx: int) -> dict:
